@@ -154,17 +154,20 @@ def _region(fid, head, body, gdef, hdef, inv):
 
 # ---- -D vs #define -----------------------------------------------------------------
 
-DEFS = [("A", None, ""), ("A", None, "1"), ("A", None, "x + 1"), ("F", "x", "x * 2"), ("F", "x,y", "x ## y"), ("F", "x,...", "x __VA_ARGS__"),
-        ("F", "...", "#__VA_ARGS__"), ("F", "", "7"), ("S", None, '"a b"'), ("F", "x", "#x"), ("A", None, "(1 << 3)"), ("A", None, "B C")]
+# (-D string, text after "#define ") pairs that must give the same macro
+DEFS = [("A", "A 1"), ("A=", "A"), ("A=1", "A 1"), ("A=x + 1", "A x + 1"), ("F(x)=x * 2", "F(x) x * 2"), ("F(x,y)=x ## y", "F(x,y) x ## y"),
+        ("F(x,...)=x __VA_ARGS__", "F(x,...) x __VA_ARGS__"), ("F(...)=#__VA_ARGS__", "F(...) #__VA_ARGS__"), ("F()=7", "F() 7"),
+        ('S="a b"', 'S "a b"'), ("F(x)=#x", "F(x) #x"), ("A=(1 << 3)", "A (1 << 3)"), ("A=B C", "A B C"), ("F(x)=", "F(x)"),
+        ("A=a=b", "A a=b"), ("A==1", "A =1"), ("F(x, y)=x+y", "F(x, y) x+y"), ("A= 1", "A 1"), ("A=-1", "A -1"), ("A=1==1", "A 1==1")]
 
 
 def h_defs(i: int) -> bool:
     """
-    pre: 0 <= i < 12
+    pre: 0 <= i < len(DEFS)
     post: _
     """
     k = None
-    for j in range(12):
+    for j in range(len(DEFS)):
         if i == j:
             k = j
     STATS["compared"] += 1
@@ -174,11 +177,10 @@ def h_defs(i: int) -> bool:
     with scen.untraced():
         import codebasin.preprocessor as pp
 
-        name, args, body = DEFS[k]
-        head = name if args is None else "%s(%s)" % (name, args)
+        dstring, dtext = DEFS[k]
         try:
-            m1 = pp.macro_from_definition_string(head + ("=" + body if body != "" or args is not None else ""))
-            node = pp.DirectiveParser(pp.Lexer("#define %s %s" % (head, body if (body != "" or args is not None) else "1")).tokenize()).parse()
+            m1 = pp.macro_from_definition_string(dstring)
+            node = pp.DirectiveParser(pp.Lexer("#define " + dtext).tokenize()).parse()
             m2 = pp.make_macro(node.identifier, node.args, node.value)
             a1 = getattr(m1, "args", None)
             a2 = getattr(m2, "args", None)
@@ -188,6 +190,38 @@ def h_defs(i: int) -> bool:
             why = "exception " + repr(e)
     if P.get("_replay"):
         LAST.update(definition=DEFS[k], why=why)
+    return why is None
+
+
+NAMES = ["None", "True", "False", "self", "ident", "str", "defined_", "__class__", "tokens", "_", "x", "NULL", "nan", "inf", "e1", "L", "u8"]
+
+
+def h_names(i: int) -> bool:
+    """
+    pre: 0 <= i < len(NAMES)
+    post: _
+    """
+    k = None
+    for j in range(len(NAMES)):
+        if i == j:
+            k = j
+    STATS["compared"] += 1
+    if P.get("_twin"):
+        return False
+    why = None
+    with scen.untraced():
+        import codebasin.preprocessor as pp
+
+        try:
+            # an object-like and a function-like macro of that name: the identifier's spelling must not matter
+            plat = _cbi_platform([(NAMES[k], "1"), ("W(%s)" % NAMES[k], "%s + 2" % NAMES[k])])
+            got = _spell(pp.MacroExpander(plat).expand(pp.Lexer("%s + W(3)" % NAMES[k]).tokenize()))
+            if got != ["1", "+", "3", "+", "2"]:
+                why = "expansion %s != ['1', '+', '3', '+', '2']" % got
+        except Exception as e:
+            why = "exception " + repr(e)
+    if P.get("_replay"):
+        LAST.update(name=NAMES[k], why=why)
     return why is None
 
 
@@ -345,6 +379,7 @@ def obligations(tier, known):
             obs.append(Ob(id="witness/" + fid, kind="ch", module=__name__, func="h_expand",
                           params=dict(head=1, inv=5, nitems=10, ng=4, nh=2, three=False, regions=[], witness=fid), timeout=300,
                           expect="witness:" + fid, group="witness"))
+    obs.append(Ob(id="defs/macro-names", kind="ch", module=__name__, func="h_names", params={}, timeout=120, group="defs"))
     obs.append(Ob(id="defs/-D-vs-define", kind="ch", module=__name__, func="h_defs", params={}, timeout=120, group="defs"))
     obs.append(Ob(id="ifk/truth", kind="ch", module=__name__, func="h_ifk", params={}, timeout=300, group="ifk"))
     return obs
